@@ -357,7 +357,28 @@ KNOWN = {"convolve_oddpad": known_convolve_oddpad, "ns_optim_3pow15": known_ns_o
 
 # ------------------------------------------------------------------------------------------------
 
+_MEM_GUARD = [False]
+
+
+def _guard_memory():
+    """Safety net, once per worker process: cap the address space at 4 GiB (legitimate cases need < 0.3 GiB) so that
+    a broadcasting bug in the code under test that turns an (a, n, 1) array into (a, n, n) surfaces as a MemoryError
+    finding through ctx.call instead of the kernel killing the worker (harness error)."""
+    if _MEM_GUARD[0]:
+        return
+    _MEM_GUARD[0] = True
+    try:
+        import resource
+        soft, hard = resource.getrlimit(resource.RLIMIT_AS)
+        lim = 4 * 2 ** 30
+        if soft == resource.RLIM_INFINITY or soft > lim:
+            resource.setrlimit(resource.RLIMIT_AS, (lim, hard))
+    except Exception:  # noqa - platform without RLIMIT_AS: no guard
+        pass
+
+
 def run_case(case, ctx):
+    _guard_memory()
     t = case["t"]
     ctx.label("type_" + t)
     if t == "conv":
